@@ -147,6 +147,52 @@ def _compare(ctx, case, k, d):
                       dict(case=case, k=k, spike_dtype=np.dtype(sdtype).name, observed=obs))
 
 
+def model_route(ctx, d, rng, n, spikes, nsw, tag):
+    """TemplateModel.get_waveforms over the same recording (cell identities, int16) with a PARTIAL spike-subset
+    store written by save_spikes_subset_waveforms: requests of stored spikes, of stored and non-stored spikes
+    (incl. a non-stored id below the largest stored one) and of non-stored spikes only."""
+    from .. import datasets as D
+    ns = len(spikes)
+    ds = D.random_dense(rng, ns=ns, nt=2, nc=NCH, nsw=nsw, raw=True)
+    ds['samples'] = np.asarray(spikes)
+    ds['chmap'] = np.arange(NCH)
+    ds['raw'] = cells(n)
+    ds['sc'] = None
+    p = D.write_dataset(d / ('m%s' % tag), ds)
+    m = D.load(p)
+    try:
+        m.save_spikes_subset_waveforms(max_n_spikes_per_template=int(rng.randint(1, 3)), max_n_channels=int(rng.randint(1, NCH + 1)))
+    finally:
+        m.close()
+    m = D.load(p)
+    out = []
+    try:
+        sw = m.spike_waveforms
+        if sw is None:
+            raise ValueError('the exported spike-subset store was not loaded')
+        stored = [int(x) for x in np.asarray(sw.spike_ids)]
+        stch = {sid: [int(c) for c in np.asarray(sw.spike_channels)[j]] for j, sid in enumerate(stored)}
+        others = [i for i in range(ns) if i not in stch]
+        reqs = [list(rng.permutation(stored))[:3]]
+        below = [i for i in others if i < max(stored)]
+        if others:
+            reqs.append(sorted(stored[:2] + (below[:1] or others[:1])))
+            reqs.append(others[:2])
+        for req in reqs:
+            cids = [int(c) for c in rng.permutation(NCH)[:int(rng.randint(1, NCH + 1))]]
+            w = m.get_waveforms(np.asarray(req, dtype=np.int64), np.asarray(cids))
+            all_stored = all(i in stch for i in req)
+            o = decode(np.asarray(w), 1)
+            if isinstance(o, str) or np.asarray(w).shape != (len(req), nsw, len(cids)):
+                raise ValueError('get_waveforms(%r, %r) returned shape %r / values that are not samples of the '
+                                 'recording' % (req, cids, np.asarray(w).shape))
+            out.append(dict(idx=[int(i) + 1 for i in req], cids=cids, allStored=all_stored,
+                            stchans=[stch.get(i, []) for i in req], out=o))
+    finally:
+        m.close()
+    return out
+
+
 def _first_diff(obs, case, exp_batches):
     if 'load_error' in obs:
         return 'exported file does not load: ' + obs['load_error']
@@ -207,8 +253,14 @@ def _random_records(ctx, count):
                 a += s
             bad = 'load_error' in obs or obs.get('loaded') == 'nonintegral' or any(
                 isinstance(e, str) for e in obs['extract'])
+            model = []
+            if nsw >= 2 and not bad:
+                with ctx.guard('route', dict(inp, route='model')):
+                    model = model_route(ctx, d, rng, n, spikes, nsw, 'r%d' % rid)
+                if ctx.abort:
+                    return recs
             recs.append(dict(
-                id=rid, n=n, chunks=obs['chunks'], spikes=spikes, nsw=nsw, dt=dt, fk=fk,
+                id=rid, n=n, chunks=obs['chunks'], spikes=spikes, nsw=nsw, dt=dt, fk=fk, model=model,
                 batches=batches, loaded=[] if bad else obs['loaded'],
                 declOk=(not bad) and obs.get('shape') == [ns_all, nsw, 2] and obs.get('dtype') == 'float64',
                 extract=[] if bad else obs['extract'],
@@ -262,6 +314,8 @@ def run(ctx):
     recs = _random_records(ctx, 150 if ctx.quick else 1500)
     if ctx.abort or not recs:
         return
+    ctx.part(kind='note', model_route_requests=sum(len(r['model']) for r in recs),
+             model_route_fallback_requests=sum(1 for r in recs for e in r['model'] if not e['allStored']))
     for chunk in [recs[a:a + 300] for a in range(0, len(recs), 300)]:
         for rid, clause in ctx.validate('Trace_Waveforms', 'Trace_Waveforms.cfg', chunk, timeout=3000):
             r = [x for x in recs if x['id'] == rid][0]
